@@ -73,25 +73,24 @@ def posSpec (offset : Option Int) (a : L) : Except Exc Int :=
   | none => .error .LocInvalid
   | some p => .ok (match offset with | none => p | some o => p + o)
 
-/-- the stop is inclusive in the direction of the step - when the step's class is exactly `int`
-    (`key.step.__class__ is int and key.step < 0`); a np.integer / bool step (`stepIsInt = false`) always gets `+ 1` -/
-def stopAdjust (step : Option Int) (stepIsInt : Bool) (pos : Int) : Option Int :=
+/-- the stop is inclusive in the direction of the step, read from the VALUE of the step
+    (`key.step is not None and key.step < 0`, the repair of finding F90, commit b8dc316) -/
+def stopAdjust (step : Option Int) (pos : Int) : Option Int :=
   match step with
   | none => some (pos + 1)
-  | some k =>
-    if stepIsInt = true ∧ k < 0 then (if pos - 1 < 0 then none else some (pos - 1)) else some (pos + 1)
+  | some k => if k < 0 then (if pos - 1 < 0 then none else some (pos - 1)) else some (pos + 1)
 
-theorem map_slice_args_start_spec (start stop : Option L) (step : Option Int) (stepIsInt : Bool) (offset : Option Int) :
-    Gen.LocMap.map_slice_args_start lookup isDt dtArm start stop step stepIsInt offset
+theorem map_slice_args_start_spec (start stop : Option L) (step : Option Int) (offset : Option Int) :
+    Gen.LocMap.map_slice_args_start lookup isDt dtArm start stop step offset
       = fieldSpec isDt dtArm .start start (fun a => (posSpec lookup offset a).map some) := by
   cases offset <;> cases start <;> simp only [Gen.LocMap.map_slice_args_start, fieldSpec, posSpec]
   all_goals
     rename_i a
     cases isDt a <;> cases lookup a <;> rfl
 
-theorem map_slice_args_stop_spec (start stop : Option L) (step : Option Int) (stepIsInt : Bool) (offset : Option Int) :
-    Gen.LocMap.map_slice_args_stop lookup isDt dtArm start stop step stepIsInt offset
-      = fieldSpec isDt dtArm .stop stop (fun a => (posSpec lookup offset a).map (stopAdjust step stepIsInt)) := by
+theorem map_slice_args_stop_spec (start stop : Option L) (step : Option Int) (offset : Option Int) :
+    Gen.LocMap.map_slice_args_stop lookup isDt dtArm start stop step offset
+      = fieldSpec isDt dtArm .stop stop (fun a => (posSpec lookup offset a).map (stopAdjust step)) := by
   cases offset <;> cases stop <;> simp only [Gen.LocMap.map_slice_args_stop, fieldSpec, posSpec]
   all_goals
     rename_i a
@@ -100,31 +99,31 @@ theorem map_slice_args_stop_spec (start stop : Option L) (step : Option Int) (st
     cases step with
     | none => rfl
     | some k =>
-      cases stepIsInt <;> simp only [Bool.false_eq_true, if_false, if_true, Except.map, stopAdjust, false_and, true_and]
-      all_goals repeat' split
+      simp only [Bool.false_eq_true, if_false, Except.map, stopAdjust]
+      repeat' split
       all_goals rfl
 
-theorem map_slice_args_step_spec (start stop : Option L) (step : Option Int) (stepIsInt : Bool) (offset : Option Int) :
-    Gen.LocMap.map_slice_args_step lookup isDt dtArm start stop step stepIsInt offset = .ok step := by
+theorem map_slice_args_step_spec (start stop : Option L) (step : Option Int) (offset : Option Int) :
+    Gen.LocMap.map_slice_args_step lookup isDt dtArm start stop step offset = .ok step := by
   cases offset <;> cases step <;> rfl
 
 /-- the three values in the order of the loop; the first exception wins -/
-def argsSpec (start stop : Option L) (step : Option Int) (stepIsInt : Bool) (offset : Option Int) :
+def argsSpec (start stop : Option L) (step : Option Int) (offset : Option Int) :
     Except Exc (Option Int × Option Int × Option Int) :=
   match fieldSpec isDt dtArm .start start (fun a => (posSpec lookup offset a).map some) with
   | .error e => .error e
   | .ok a =>
-    match fieldSpec isDt dtArm .stop stop (fun a => (posSpec lookup offset a).map (stopAdjust step stepIsInt)) with
+    match fieldSpec isDt dtArm .stop stop (fun a => (posSpec lookup offset a).map (stopAdjust step)) with
     | .error e => .error e
     | .ok b => .ok (a, b, step)
 
-theorem map_slice_args_spec (start stop : Option L) (step : Option Int) (stepIsInt : Bool) (offset : Option Int) :
-    Gen.LocMap.map_slice_args lookup isDt dtArm start stop step stepIsInt offset
-      = argsSpec lookup isDt dtArm start stop step stepIsInt offset := by
+theorem map_slice_args_spec (start stop : Option L) (step : Option Int) (offset : Option Int) :
+    Gen.LocMap.map_slice_args lookup isDt dtArm start stop step offset
+      = argsSpec lookup isDt dtArm start stop step offset := by
   simp only [Gen.LocMap.map_slice_args, argsSpec, map_slice_args_start_spec, map_slice_args_stop_spec,
     map_slice_args_step_spec]
   generalize fieldSpec isDt dtArm .start start (fun a => (posSpec lookup offset a).map some) = x
-  generalize fieldSpec isDt dtArm .stop stop (fun a => (posSpec lookup offset a).map (stopAdjust step stepIsInt)) = y
+  generalize fieldSpec isDt dtArm .stop stop (fun a => (posSpec lookup offset a).map (stopAdjust step)) = y
   cases x <;> cases y <;> rfl
 
 /-- the slice branch of `LocMap.loc_to_iloc` as a function of what `map_slice_args` answers -/
@@ -148,13 +147,13 @@ def sliceBranchSpec (n : Nat) (start stop : Option L) (step : Option Int) (offse
                    | some b => some b
                    | none => if o > 0 then some (o - 1) else none), c⟩
 
-theorem loc_to_iloc_slice_spec (n : Nat) (start stop : Option L) (step : Option Int) (stepIsInt : Bool) (offset : Option Int) :
-    Gen.LocMap.loc_to_iloc_slice lookup isDt dtArm n start stop step stepIsInt offset
-      = sliceBranchSpec n start stop step offset (Gen.LocMap.map_slice_args lookup isDt dtArm start stop step stepIsInt offset) := by
+theorem loc_to_iloc_slice_spec (n : Nat) (start stop : Option L) (step : Option Int) (offset : Option Int) :
+    Gen.LocMap.loc_to_iloc_slice lookup isDt dtArm n start stop step offset
+      = sliceBranchSpec n start stop step offset (Gen.LocMap.map_slice_args lookup isDt dtArm start stop step offset) := by
   cases offset with
   | none =>
     simp only [Gen.LocMap.loc_to_iloc_slice, sliceBranchSpec]
-    cases Gen.LocMap.map_slice_args lookup isDt dtArm start stop step stepIsInt none with
+    cases Gen.LocMap.map_slice_args lookup isDt dtArm start stop step none with
     | error e => cases e <;> rfl
     | ok r => rfl
   | some o =>
@@ -164,7 +163,7 @@ theorem loc_to_iloc_slice_spec (n : Nat) (start stop : Option L) (step : Option 
       rw [if_pos h', if_pos hnull]
     · have h' : ¬ (start.isNone && stop.isNone && step.isNone) = true := by simpa [and_assoc] using hnull
       rw [if_neg h', if_neg hnull]
-      cases Gen.LocMap.map_slice_args lookup isDt dtArm start stop step stepIsInt (some o) with
+      cases Gen.LocMap.map_slice_args lookup isDt dtArm start stop step (some o) with
       | error e => cases e <;> rfl
       | ok r =>
         obtain ⟨a, b, c⟩ := r
@@ -222,7 +221,7 @@ include hdt
 
 /-- iteration `field = 'start'` of `map_slice_args` = `Index.mapSliceArg … false` -/
 theorem map_slice_args_start_bridge (start stop : Option α) (step : Option Int) (offset : Option Nat) :
-    liftE (Gen.LocMap.map_slice_args_start (lookupOf m) isDt dtArm start stop step true (pyOffset offset))
+    liftE (Gen.LocMap.map_slice_args_start (lookupOf m) isDt dtArm start stop step (pyOffset offset))
       = mapSliceArg m (offset.getD 0) false start := by
   cases offset <;> cases start <;>
     simp only [Gen.LocMap.map_slice_args_start, mapSliceArg, pyOffset, liftE_ok, hdt, Option.map_none, Option.map_some,
@@ -234,7 +233,7 @@ theorem map_slice_args_start_bridge (start stop : Option α) (step : Option Int)
 /-- iteration `field = 'stop'` of `map_slice_args` = `Index.mapSliceStop` (inclusive in the direction of the
     step: `+ 1`, for an integer step `< 0` `- 1` and `None` below 0) -/
 theorem map_slice_args_stop_bridge (start stop : Option α) (step : Option Int) (offset : Option Nat) :
-    liftE (Gen.LocMap.map_slice_args_stop (lookupOf m) isDt dtArm start stop step true (pyOffset offset))
+    liftE (Gen.LocMap.map_slice_args_stop (lookupOf m) isDt dtArm start stop step (pyOffset offset))
       = mapSliceStop m (offset.getD 0) step stop := by
   cases offset <;> cases stop <;>
     simp only [Gen.LocMap.map_slice_args_stop, mapSliceStop, pyOffset, liftE_ok, hdt, Option.map_none, Option.map_some,
@@ -250,26 +249,26 @@ theorem map_slice_args_stop_bridge (start stop : Option α) (step : Option Int) 
 omit hdt in
 /-- iteration `field = 'step'` of `map_slice_args`: the step is passed through -/
 theorem map_slice_args_step_bridge (start stop : Option α) (step : Option Int) (offset : Option Nat) :
-    Gen.LocMap.map_slice_args_step (lookupOf m) isDt dtArm start stop step true (pyOffset offset) = .ok step := by
+    Gen.LocMap.map_slice_args_step (lookupOf m) isDt dtArm start stop step (pyOffset offset) = .ok step := by
   cases offset <;> cases step <;> rfl
 
 /-- `slice(*LocMap.map_slice_args(label_to_pos.get, key, labels, offset))` = `Index.mapSliceArgs` -/
 theorem map_slice_args_bridge (start stop : Option α) (step : Option Int) (offset : Option Nat) :
-    (liftE (Gen.LocMap.map_slice_args (lookupOf m) isDt dtArm start stop step true (pyOffset offset))).map
+    (liftE (Gen.LocMap.map_slice_args (lookupOf m) isDt dtArm start stop step (pyOffset offset))).map
         (fun r => PySlice.mk r.1 r.2.1 r.2.2)
       = mapSliceArgs m (offset.getD 0) start stop step := by
   have h1 := map_slice_args_start_bridge m isDt hdt dtArm start stop step offset
   have h2 := map_slice_args_stop_bridge m isDt hdt dtArm start stop step offset
   have h3 := map_slice_args_step_bridge m isDt dtArm start stop step offset
   simp only [Gen.LocMap.map_slice_args, mapSliceArgs, ← h1, ← h2, h3]
-  cases Gen.LocMap.map_slice_args_start (lookupOf m) isDt dtArm start stop step true (pyOffset offset) <;>
-    cases Gen.LocMap.map_slice_args_stop (lookupOf m) isDt dtArm start stop step true (pyOffset offset) <;>
+  cases Gen.LocMap.map_slice_args_start (lookupOf m) isDt dtArm start stop step (pyOffset offset) <;>
+    cases Gen.LocMap.map_slice_args_stop (lookupOf m) isDt dtArm start stop step (pyOffset offset) <;>
     simp [liftE, Except.map]
 
 /-- outside the datetime arm the only exception is LocInvalid (an endpoint that is not held): the
     `except LocEmpty` handler of `loc_to_iloc` is dead for non-datetime labels, and None arithmetic does not occur -/
 theorem map_slice_args_start_error (start stop : Option α) (step : Option Int) (offset : Option Nat) (e : Exc)
-    (h : Gen.LocMap.map_slice_args_start (lookupOf m) isDt dtArm start stop step true (pyOffset offset) = .error e) :
+    (h : Gen.LocMap.map_slice_args_start (lookupOf m) isDt dtArm start stop step (pyOffset offset) = .error e) :
     e = .LocInvalid := by
   cases offset <;> cases start <;>
     simp only [Gen.LocMap.map_slice_args_start, pyOffset, hdt, Option.map_none, Option.map_some,
@@ -279,7 +278,7 @@ theorem map_slice_args_start_error (start stop : Option α) (step : Option Int) 
     | (rename_i a; cases hg : lookupOf m a <;> simp [hg] at h; exact h.symm)
 
 theorem map_slice_args_stop_error (start stop : Option α) (step : Option Int) (offset : Option Nat) (e : Exc)
-    (h : Gen.LocMap.map_slice_args_stop (lookupOf m) isDt dtArm start stop step true (pyOffset offset) = .error e) :
+    (h : Gen.LocMap.map_slice_args_stop (lookupOf m) isDt dtArm start stop step (pyOffset offset) = .error e) :
     e = .LocInvalid := by
   cases offset <;> cases stop <;>
     simp only [Gen.LocMap.map_slice_args_stop, pyOffset, hdt, Option.map_none, Option.map_some,
@@ -295,17 +294,17 @@ theorem map_slice_args_stop_error (start stop : Option α) (step : Option Int) (
          | some k => by_cases hk : k < 0 <;> simp only [hk, if_true, if_false] at h <;> (try split at h) <;> cases h)
 
 theorem map_slice_args_error (start stop : Option α) (step : Option Int) (offset : Option Nat) (e : Exc)
-    (h : Gen.LocMap.map_slice_args (lookupOf m) isDt dtArm start stop step true (pyOffset offset) = .error e) :
+    (h : Gen.LocMap.map_slice_args (lookupOf m) isDt dtArm start stop step (pyOffset offset) = .error e) :
     e = .LocInvalid := by
   have h3 := map_slice_args_step_bridge m isDt dtArm start stop step offset
   simp only [Gen.LocMap.map_slice_args, h3] at h
-  cases h1 : Gen.LocMap.map_slice_args_start (lookupOf m) isDt dtArm start stop step true (pyOffset offset) with
+  cases h1 : Gen.LocMap.map_slice_args_start (lookupOf m) isDt dtArm start stop step (pyOffset offset) with
   | error e1 =>
     rw [h1] at h; simp only [Except.error.injEq] at h; subst h
     exact map_slice_args_start_error m isDt hdt dtArm start stop step offset _ h1
   | ok a =>
     rw [h1] at h
-    cases h2 : Gen.LocMap.map_slice_args_stop (lookupOf m) isDt dtArm start stop step true (pyOffset offset) with
+    cases h2 : Gen.LocMap.map_slice_args_stop (lookupOf m) isDt dtArm start stop step (pyOffset offset) with
     | error e2 =>
       rw [h2] at h; simp only [Except.error.injEq] at h; subst h
       exact map_slice_args_stop_error m isDt hdt dtArm start stop step offset _ h2
@@ -316,7 +315,7 @@ theorem map_slice_args_error (start stop : Option α) (step : Option Int) (offse
     `Index.locMap` (`boundSlice`) -/
 theorem loc_to_iloc_slice_bridge (n : Nat) (start stop : Option α) (step : Option Int) (offset : Option Nat)
     (partialSel : Bool) :
-    (liftE (Gen.LocMap.loc_to_iloc_slice (lookupOf m) isDt dtArm n start stop step true (pyOffset offset))).map IKey.slice
+    (liftE (Gen.LocMap.loc_to_iloc_slice (lookupOf m) isDt dtArm n start stop step (pyOffset offset))).map IKey.slice
       = locMap m n (.slice start stop step) offset partialSel := by
   have hb := map_slice_args_bridge m isDt hdt dtArm start stop step offset
   have he := map_slice_args_error m isDt hdt dtArm start stop step offset
@@ -325,7 +324,7 @@ theorem loc_to_iloc_slice_bridge (n : Nat) (start stop : Option α) (step : Opti
     simp only [pyOffset, Option.map_none, Option.getD_none] at hb he
     simp only [Gen.LocMap.loc_to_iloc_slice, locMap, pyOffset, Option.map_none, Option.isSome_none, Bool.false_eq_true,
       false_and, if_false, Option.getD_none, ← hb]
-    cases hr : Gen.LocMap.map_slice_args (lookupOf m) isDt dtArm start stop step true none with
+    cases hr : Gen.LocMap.map_slice_args (lookupOf m) isDt dtArm start stop step none with
     | error e => have := he e hr; subst this; rfl
     | ok r => obtain ⟨a, b, c⟩ := r; rfl
   | some o =>
@@ -338,7 +337,7 @@ theorem loc_to_iloc_slice_bridge (n : Nat) (start stop : Option α) (step : Opti
       simp [Except.map]
     · have h' : ¬ (start.isNone && stop.isNone && step.isNone) = true := by simpa [and_assoc] using hnull
       rw [if_neg h', if_neg hnull]
-      cases hr : Gen.LocMap.map_slice_args (lookupOf m) isDt dtArm start stop step true (some (Int.ofNat o)) with
+      cases hr : Gen.LocMap.map_slice_args (lookupOf m) isDt dtArm start stop step (some (Int.ofNat o)) with
       | error e => have := he e hr; subst this; rfl
       | ok r =>
         obtain ⟨a, b, c⟩ := r
@@ -355,14 +354,14 @@ theorem loc_to_iloc_slice_bridge (n : Nat) (start stop : Option α) (step : Opti
 
 /-- the slice branch raises nothing but LocInvalid (an endpoint that is not held) -/
 theorem loc_to_iloc_slice_error (n : Nat) (start stop : Option α) (step : Option Int) (offset : Option Nat) (e : Exc)
-    (h : Gen.LocMap.loc_to_iloc_slice (lookupOf m) isDt dtArm n start stop step true (pyOffset offset) = .error e) :
+    (h : Gen.LocMap.loc_to_iloc_slice (lookupOf m) isDt dtArm n start stop step (pyOffset offset) = .error e) :
     e = .LocInvalid := by
   have he := map_slice_args_error m isDt hdt dtArm start stop step offset
   cases offset with
   | none =>
     simp only [pyOffset, Option.map_none] at he
     simp only [Gen.LocMap.loc_to_iloc_slice, pyOffset, Option.map_none] at h
-    cases hr : Gen.LocMap.map_slice_args (lookupOf m) isDt dtArm start stop step true none with
+    cases hr : Gen.LocMap.map_slice_args (lookupOf m) isDt dtArm start stop step none with
     | error e' =>
       have := he e' hr; subst this
       rw [hr] at h; simp only [Except.error.injEq] at h; exact h.symm
@@ -372,7 +371,7 @@ theorem loc_to_iloc_slice_error (n : Nat) (start stop : Option α) (step : Optio
     simp only [Gen.LocMap.loc_to_iloc_slice, pyOffset, Option.map_some] at h
     split at h
     · cases h
-    · cases hr : Gen.LocMap.map_slice_args (lookupOf m) isDt dtArm start stop step true (some (Int.ofNat o)) with
+    · cases hr : Gen.LocMap.map_slice_args (lookupOf m) isDt dtArm start stop step (some (Int.ofNat o)) with
       | error e' =>
         have := he e' hr; subst this
         rw [hr] at h; simp only [Except.error.injEq] at h; exact h.symm
@@ -385,7 +384,7 @@ theorem loc_to_iloc_slice_error (n : Nat) (start stop : Option α) (step : Optio
     of the node) -/
 theorem locToIlocP_slice_bridge [IntLabel α] (ix : Index α) (hm : ix.map = some m) (start stop : Option α)
     (step : Option Int) (offset : Option Nat) (partialSel : Bool) :
-    (liftE (Gen.LocMap.loc_to_iloc_slice (lookupOf m) isDt dtArm ix.len start stop step true (pyOffset offset))).map IKey.slice
+    (liftE (Gen.LocMap.loc_to_iloc_slice (lookupOf m) isDt dtArm ix.len start stop step (pyOffset offset))).map IKey.slice
       = ix.locToIlocP (.slice start stop step) offset partialSel := by
   rw [loc_to_iloc_slice_bridge m isDt hdt dtArm ix.len start stop step offset partialSel]
   simp only [locToIlocP, hm]
@@ -427,9 +426,9 @@ theorem loc_to_iloc_element_bridge (n : Nat) (a : α) (offset : Option Nat) (par
 theorem gen_ok_of_locMap {n : Nat} {start stop : Option α} {step : Option Int} {offset : Option Nat}
     {partialSel : Bool} {s : PySlice}
     (h : locMap m n (.slice start stop step) offset partialSel = .ok (.slice s)) :
-    Gen.LocMap.loc_to_iloc_slice (lookupOf m) isDt dtArm n start stop step true (pyOffset offset) = .ok s := by
+    Gen.LocMap.loc_to_iloc_slice (lookupOf m) isDt dtArm n start stop step (pyOffset offset) = .ok s := by
   rw [← loc_to_iloc_slice_bridge m isDt hdt dtArm n start stop step offset partialSel] at h
-  cases hr : Gen.LocMap.loc_to_iloc_slice (lookupOf m) isDt dtArm n start stop step true (pyOffset offset) with
+  cases hr : Gen.LocMap.loc_to_iloc_slice (lookupOf m) isDt dtArm n start stop step (pyOffset offset) with
   | error e => rw [hr] at h; simp [Except.map] at h
   | ok r => rw [hr] at h; simp [Except.map] at h; rw [h]
 
@@ -437,9 +436,9 @@ theorem gen_ok_of_locMap {n : Nat} {start stop : Option α} {step : Option Int} 
 theorem gen_error_of_locMap {n : Nat} {start stop : Option α} {step : Option Int} {offset : Option Nat}
     {partialSel : Bool} {e : Err}
     (h : locMap m n (.slice start stop step) offset partialSel = .error e) :
-    Gen.LocMap.loc_to_iloc_slice (lookupOf m) isDt dtArm n start stop step true (pyOffset offset) = .error .LocInvalid := by
+    Gen.LocMap.loc_to_iloc_slice (lookupOf m) isDt dtArm n start stop step (pyOffset offset) = .error .LocInvalid := by
   rw [← loc_to_iloc_slice_bridge m isDt hdt dtArm n start stop step offset partialSel] at h
-  cases hr : Gen.LocMap.loc_to_iloc_slice (lookupOf m) isDt dtArm n start stop step true (pyOffset offset) with
+  cases hr : Gen.LocMap.loc_to_iloc_slice (lookupOf m) isDt dtArm n start stop step (pyOffset offset) with
   | error e' => rw [loc_to_iloc_slice_error m isDt hdt dtArm n start stop step offset e' hr]
   | ok r => rw [hr] at h; simp [Except.map] at h
 
@@ -451,20 +450,20 @@ def exMap : AMap Nat := [(5, 0), (7, 1), (9, 2)]      -- labels 5, 7, 9 at posit
 example : ∀ a : Nat, (fun _ => false : Nat → Bool) a = false := fun _ => rfl
 /-- descending stop under an offset: label 5 (position 0) at offset 3 → 3 - 1 = 2 -/
 example : Gen.LocMap.map_slice_args_stop (lookupOf exMap) (fun _ => false) (fun _ _ => .error .TypeError)
-    none (some 5) (some (-1)) true (pyOffset (some 3)) = .ok (some 2) := by decide
+    none (some 5) (some (-1)) (pyOffset (some 3)) = .ok (some 2) := by decide
 example : mapSliceStop exMap 3 (some (-1)) (some 5) = .ok (some 2) := by decide
 /-- at offset 0 the same stop falls below 0 and is open -/
 example : Gen.LocMap.map_slice_args_stop (lookupOf exMap) (fun _ => false) (fun _ _ => .error .TypeError)
-    none (some 5) (some (-1)) true (pyOffset (some 0)) = .ok none := by decide
+    none (some 5) (some (-1)) (pyOffset (some 0)) = .ok none := by decide
 /-- the datetime arm is reached before the lookup (generic layer) -/
 example : Gen.LocMap.map_slice_args_start (lookupOf exMap) (fun a => a == 7) (fun _ _ => .error .LocEmpty)
-    (some 7) none none true none = .error .LocEmpty := by decide
+    (some 7) none none none = .error .LocEmpty := by decide
 /-- ... and LocEmpty becomes EMPTY_SLICE in the slice branch -/
 example : Gen.LocMap.loc_to_iloc_slice (lookupOf exMap) (fun a => a == 7) (fun _ _ => .error .LocEmpty)
-    3 (some 7) none none true none = .ok ⟨some 0, some 0, none⟩ := by decide
+    3 (some 7) none none none = .ok ⟨some 0, some 0, none⟩ := by decide
 /-- an open descending slice inside a node at offset 3 of length 3: from 5 down to 3 (stop 2) -/
 example : Gen.LocMap.loc_to_iloc_slice (lookupOf exMap) (fun _ => false) (fun _ _ => .error .TypeError)
-    3 none none (some (-1)) true (pyOffset (some 3)) = .ok ⟨some 5, some 2, some (-1)⟩ := by decide
+    3 none none (some (-1)) (pyOffset (some 3)) = .ok ⟨some 5, some 2, some (-1)⟩ := by decide
 example : locMap exMap 3 (.slice none none (some (-1))) (some 3) true = .ok (.slice ⟨some 5, some 2, some (-1)⟩) := by decide
 example : Gen.LocMap.loc_to_iloc_list (lookupOf exMap) [9, 6, 5] (pyOffset (some 3)) true = .ok [5, 3] := by decide
 example : mapList exMap 3 true [9, 6, 5] = .ok [5, 3] := by decide
